@@ -144,12 +144,17 @@ def run_recv(c, P):
     auto_pong = P.get('auto_pong', True)
     if auto_pong == 'sym':
         auto_pong = bool(c.boolean('auto_pong'))
+    app = None
+    if P.get('app_close_at_ready'):
+        def app(idx, ev, ws_, gen):
+            if ev.name == 'ready':
+                ws_.close(1000, b'bye')
     rec = hconn.drive(w, ws, dict(poll=1e9, ping_rate=0, ping_timeout=None, close_timeout=None,
-                                  auto_pong=auto_pong))
+                                  auto_pong=auto_pong), app)
     hconn.scribble_receive_buffer(ws)
     c.notes['scenario'] = rec.names()
     cls, ob = hconn.check_receive(c, w, rec, stream, P['tags'], auto_pong=auto_pong,
-                                  bytewise_failfast=True)
+                                  bytewise_failfast=True, client_closed=bool(P.get('app_close_at_ready')))
     names = rec.names()
     if tcls:
         cls.add(tcls)
